@@ -108,6 +108,42 @@ func (d *DiamClient) Exchange(cmd uint32, app uint32, build func(realm, host dat
 	}
 }
 
+// ExchangePair writes two requests back to back on the connection -- the second without waiting for the answer to the first --
+// and collects the answers in the order they arrive.
+func (d *DiamClient) ExchangePair(cmd uint32, app uint32, buildA, buildB func(realm, host datatype.DiameterIdentity) any,
+	wait time.Duration,
+) ([]*diam.Message, string) {
+	d.mu.Lock()
+	defer d.mu.Unlock()
+	for len(d.ch) > 0 {
+		<-d.ch
+	}
+	if err := d.connect(); err != nil {
+		return nil, "dial: " + err.Error()
+	}
+	for _, build := range []func(realm, host datatype.DiameterIdentity) any{buildA, buildB} {
+		m := diam.NewRequest(cmd, app, dict.Default)
+		if err := m.Marshal(build(d.Realm, d.Host)); err != nil {
+			return nil, "marshal: " + err.Error()
+		}
+		if _, err := m.WriteTo(d.conn); err != nil {
+			d.Close()
+			return nil, "write: " + err.Error()
+		}
+	}
+	var out []*diam.Message
+	deadline := time.After(wait)
+	for len(out) < 2 {
+		select {
+		case a := <-d.ch:
+			out = append(out, a)
+		case <-deadline:
+			return out, "noanswer"
+		}
+	}
+	return out, ""
+}
+
 // ---- AVP access by dictionary name, independent of the repository's struct tags ----
 
 func avpPath(m *diam.Message, path ...any) *diam.AVP {
